@@ -115,7 +115,11 @@ class Var:
     def data_array(self, model):
         attrs = dict(self.attrs)
         if self.fill is not None:
-            attrs[self.fill[0]] = numpy.dtype(self.dtype).type(self.fill[1])
+            if len(self.fill) > 2 and self.fill[2] == 'pyint':
+                # the way people write it by hand: attrs={'missing_value': -99999}; nothing makes it the variable's type
+                attrs[self.fill[0]] = int(self.fill[1])
+            else:
+                attrs[self.fill[0]] = numpy.dtype(self.dtype).type(self.fill[1])
         return xarray.DataArray(self.data(model), dims=self.dims, attrs=attrs)
 
 
@@ -234,7 +238,7 @@ class Model:
 DTYPES = [
     ('float64', None), ('float64', None), ('float32', None),
     ('int32', None), ('int16', ('_FillValue', -999)), ('int32', ('missing_value', -99999)),
-    ('int32', ('_FillValue', 0)),
+    ('int32', ('_FillValue', 0)), ('int32', ('missing_value', -99999, 'pyint')),
 ]
 DTYPES_WITH_DATETIME = DTYPES + [('datetime64[ns]', None)]
 
